@@ -5,6 +5,7 @@ Lines (tag = regime label, dropped before the line reaches the model):
   predict <tag> <vec coef> <vec x>              -> = <vec>
   fitpred <tag> <deg> <vec x> <vec y> <vec xs>  -> = <vec coef> <vec pred>
   vander <tag> <n> <vec x>                      -> = <vec>
+  refit <tag> <deg> <k> (<vec x> <vec y>)*k     one regressor fitted on each data set in turn -> = <vec coef>*k
 
 Oracle (exact rational arithmetic on the implementation's replies; G = V^T V, b = V^T y formed exactly):
   * orthogonality: |sum_i x_i^j (y_i - p_c(x_i))| <= C eps cond_inf(G) S_j, S_j = sum_i |x_i|^j (|y_i| + sum_k |c_k||x_i|^k)
@@ -182,6 +183,32 @@ def gen_zerosum(rng, cover):
     return "fit zerosum:d%d:%s %d %s %s" % (d, noise, d, vec(x), vec(y))
 
 
+def gen_refit(rng, cover):
+    """one regressor object fitted on 2-3 data sets; optionally the first fit has an exactly-zero leading coefficient"""
+    d = rng.randint(1, 5)
+    k = rng.choice([2, 2, 3])
+    sets = []
+    for a in range(k):
+        if a == 0 and rng.chance(0.5):
+            # symmetric integer grid, response of lower degree: leading coefficient exactly 0
+            m = max(d + 1, 5)
+            half = (m + 1) // 2
+            x = [float(v) for v in range(-half, half + 1)]
+            c0 = [float(rng.randint(-5, 5)) for _ in range(d)] + [0.0]
+            if d >= 2:
+                c0 = [c if (j % 2 == 0) else 0.0 for j, c in enumerate(c0)]   # even response: odd coefficients vanish too
+            y = [float(sum(Fraction(c) * Fraction(v) ** j for j, c in enumerate(c0))) for v in x]
+        else:
+            kind = rng.choice(["uniform", "cheb", "grid"])
+            x = layout(rng, kind, d + 1 + rng.randint(0, 20))
+            c0 = [rng.normal() * 10.0 ** rng.randint(-1, 1) for _ in range(d + 1)]
+            sc = rng.choice([0.0, 1e-3, 1.0]) * (max(abs(c) for c in c0) or 1.0)
+            y = [horner_f(c0, v) + sc * rng.normal() for v in x]
+        sets.append((x, y))
+    cover["refit"] = cover.get("refit", 0) + 1
+    return "refit refit:d%d:k%d %d %d %s" % (d, k, d, k, " ".join("%s %s" % (vec(x), vec(y)) for x, y in sets))
+
+
 def gen_predict(rng, cover):
     k = rng.randint(0, 9)
     if rng.chance(0.3):
@@ -236,6 +263,10 @@ def corpus():
     # cubic regressor on the symmetric grid, even response 1 + x^2: c1 = c3 = 0 exactly, still 4 coefficients
     xg = [-2.0, -1.0, 0.0, 1.0, 2.0]
     L.append("fit corpus:even-cubic 3 %s %s" % (vec(xg), vec([1.0 + v * v for v in xg])))
+    # the same regressor re-fitted after a fit whose leading coefficient is exactly 0 (C14b): still a cubic afterwards
+    x7 = [-3.0, -2.0, -1.0, 0.0, 1.0, 2.0, 3.0]
+    L.append("refit corpus:even-then-cubic 3 2 %s %s %s %s" % (vec(xg), vec([1.0 + v * v for v in xg]),
+                                                                vec(x7), vec([0.5 - 2.0 * v + 0.25 * v * v + 1.5 * v ** 3 for v in x7])))
     # replicated design with sum x^3 = 0 exactly but sum x = 6: X^T X has a zero entry whose Cholesky fill-in is 72/11
     xz = [-2.0] + [0.0] * 2 + [1.0] * 8
     L.append("fit corpus:zerosum:d2:exact 2 %s %s" % (vec(xz), vec([1.0 + 2.0 * v + 3.0 * v * v for v in xz])))
@@ -254,6 +285,8 @@ def gen(rng, tier):
         lines.append(gen_fit(rng, tier, cover, True))
     for _ in range(nzs):
         lines.append(gen_zerosum(rng, cover))
+    for _ in range(nzs):
+        lines.append(gen_refit(rng, cover))
     for _ in range(npred):
         lines.append(gen_predict(rng, cover))
     for _ in range(nbad):
@@ -455,6 +488,45 @@ def oracle(lines, impl):
                 m = check_predict(coef, xs, pred)
                 if m:
                     fails.append(Failure(i, "predict:" + tag, m))
+        elif op == "refit":
+            d, k = int(t[2]), int(t[3])
+            sets, j = [], 4
+            for _ in range(k):
+                x, j = take_vec(t, j)
+                y, j = take_vec(t, j)
+                sets.append((x, y))
+            if any(len(x) != len(y) or len(x) == 0 or not (finite(x) and finite(y)) or len(set(x)) < d + 1 for x, y in sets):
+                continue
+            fcs = [FitCheck(d, x, y) for x, y in sets]
+            if any(fc.Ginv is None or C_TOL * EPS * fc.cond >= SKIP_AT for fc in fcs):
+                continue
+            if st != "ok":
+                fails.append(Failure(i, key, "regressor of degree %d fitted on %d data sets in turn: %s" % (d, k, st)))
+                continue
+            q, blocks = 0, []
+            try:
+                for _ in range(k):
+                    n = int(toks[q])
+                    blocks.append([h2f(x) for x in toks[q + 1:q + 1 + n]])
+                    q += 1 + n
+            except (ValueError, IndexError):
+                q = -1
+            if q != len(toks):
+                fails.append(Failure(i, key, "malformed reply %r" % rep[:120]))
+                continue
+            bad = [(a, len(b)) for a, b in enumerate(blocks) if len(b) != d + 1]
+            if bad:
+                fails.append(Failure(i, "refit:coeff-count", "degree-%d regressor fitted %d times: fit #%d returned %d coefficients instead of %d "
+                                     "(the object lost or gained a degree between fits)" % (d, k, bad[0][0] + 1, bad[0][1], d + 1)))
+                continue
+            coef = blocks[-1]
+            if not finite(coef):
+                fails.append(Failure(i, key, "refit returned coefficients %r" % coef))
+                continue
+            errs, w = fcs[-1].check(coef, [])
+            worst = max(worst, w)
+            for what, msg in errs:
+                fails.append(Failure(i, "refit:%s:%s" % (what, tag), "after %d fits of the same regressor: %s" % (k, msg), [float(v) for v in fcs[-1].cstar]))
         elif op == "predict":
             coef, j = take_vec(t, 2)
             xs, j = take_vec(t, j)
